@@ -69,13 +69,27 @@ class RngModel(Ext):
 
     type_name = "Generator"
 
-    def __init__(self, name="rng"):
+    def __init__(self, name="rng", bitgen=None):
         self.name = name
         self.draws = []       # (law, args, value)
+        self.bitgen = bitgen
+        self.state_base = None    # (seed token, number of draws) adopted through bit_generator.state = ...
+        self.script = None        # optional list of values to hand out instead of fresh symbols
+        self.n_elem = 0
 
     def _u(self, I, lo, hi, label):
-        x = I.path.fresh(f"{self.name}_{label}{len(self.draws)}", "real")
         l, h = to_z3(lo, "real"), to_z3(hi, "real")
+        k = self.n_elem
+        self.n_elem += 1
+        if self.script is not None:
+            if k >= len(self.script):
+                raise Unsupported("scripted generator exhausted")
+            x = self.script[k]
+            xz = to_z3(x, "real")
+            # the scripted value must lie in the (closed) support of the requested law
+            I.path.oblige(f"rng.script[{k}]#in_support", z3.And(xz >= l, xz <= h), kind="call.pre")
+            return x if isinstance(x, Sym) else x
+        x = I.path.fresh(f"{self.name}_{label}{len(self.draws)}", "real")
         I.path.assume(z3.And(x.t >= l, z3.Or(x.t < h, z3.And(l == h, x.t == l))))
         return x
 
@@ -88,8 +102,10 @@ class RngModel(Ext):
                     self.draws.append(("random", (), x))
                     I_.path.event("draw", self.name, "random")
                     return x
-                if hasattr(size, "pw_random"):
-                    return size.pw_random(I_, self)
+                from .numpy_model import sym_shape
+                ps = sym_shape(size)
+                if ps is not None:
+                    return ps.pw_random(I_, self)
                 from .numpy_model import shape_of
                 shp = shape_of(size)
                 n = 1
@@ -105,9 +121,10 @@ class RngModel(Ext):
                 lo = a[0] if len(a) > 0 else k.get("low", 0)
                 hi = a[1] if len(a) > 1 else k.get("high", 1)
                 size = a[2] if len(a) > 2 else k.get("size")
-                if hasattr(size, "pw_uniform"):
-                    return size.pw_uniform(I_, self, lo, hi)
-                from .numpy_model import shape_of
+                from .numpy_model import shape_of, sym_shape
+                ps = sym_shape(size)
+                if ps is not None:
+                    return ps.pw_uniform(I_, self, lo, hi)
                 if size is None:
                     x = self._u(I_, lo, hi, "x")
                     self.draws.append(("uniform", (lo, hi), x))
@@ -124,9 +141,10 @@ class RngModel(Ext):
         if name == "standard_normal":
             def normal(I_, a, k):
                 size = a[0] if a else k.get("size")
-                if hasattr(size, "pw_normal"):
-                    return size.pw_normal(I_, self)
-                from .numpy_model import shape_of
+                from .numpy_model import shape_of, sym_shape
+                ps = sym_shape(size)
+                if ps is not None:
+                    return ps.pw_normal(I_, self)
                 shp = shape_of(size)
                 n = 1
                 for s in shp:
@@ -144,14 +162,66 @@ class RngModel(Ext):
         if name == "bit_generator":
             return self
         if name == "state":
-            return self.__dict__.get("_state", ("rng_state", self.name))
+            return self.state_token()
         raise Unsupported(f"Generator.{name}")
+
+    def state_token(self):
+        """PCG64 state abstracted as (seed, number of draws since seeding); TRUSTED: equal tokens
+        <=> equal future streams."""
+        if self.state_base is not None:
+            seed, n0 = self.state_base
+            return RngState(seed, n0 + len(self.draws) - self.base_draws)
+        seed = self.bitgen.seed if self.bitgen is not None else ("unknown-seed", self.name)
+        return RngState(seed, len(self.draws))
 
     def py_setattr(self, I, name, value):
         if name == "state":
-            self._state = value
+            if not isinstance(value, RngState):
+                raise Unsupported("bit_generator.state set to a non-state value")
+            self.state_base = (value.seed, value.ndraws)
+            self.base_draws = len(self.draws)
             return
         raise Unsupported(f"set Generator.{name}")
+
+
+class RngState(Ext):
+    type_name = "pcg64-state"
+
+    def __init__(self, seed, ndraws):
+        self.seed = seed
+        self.ndraws = ndraws
+
+    def py_compare(self, I, op, other, reflected):
+        if op == "Eq":
+            if not isinstance(other, RngState):
+                return False
+            return ops.sym_and(ops.compare(I, "Eq", self.seed, other.seed) if not isinstance(self.seed, tuple) else self.seed == other.seed,
+                               self.ndraws == other.ndraws)
+        return NotImplemented
+
+    def py_deepcopy(self, I):
+        return self
+
+
+class PCG64Model(Ext):
+    type_name = "PCG64"
+
+    def __init__(self, I, seed):
+        self.seed = seed
+        self.unseeded = seed is None
+        if seed is None:
+            self.seed = I.path.fresh("os_entropy", "int")
+            I.path.event("unseeded_bit_generator")
+
+    def py_getattr(self, I, name):
+        if name == "random_raw":
+            def raw(I_, a, k):
+                x = I_.path.fresh("raw", "int")
+                I_.path.assume(x.t >= 0)
+                I_.path.event("random_raw", "unseeded" if self.unseeded else "seeded")
+                return x
+            return Builtin("PCG64.random_raw", raw)
+        raise Unsupported(f"PCG64.{name}")
 
 
 class MassesModel(Ext):
